@@ -25,7 +25,13 @@ def cond() -> bool: ...
 @guppy.declare
 def sink(x: T) -> None: ...
 
+
+from hugr.std.int import IntVal as _IntVal
+g0 = guppy.constant("g0", "int", _IntVal(7, 6))   # a module-level Guppy constant: a function that assigns g0 anywhere (even in dead code) makes
+# it a local (Python scoping), otherwise reads see this global
+
 '''
+GLOBALS = {"g0": "int"}
 
 VALUES = {"int": "1", "bool": "True", "float": "2.5", "tuple": "(1, 2)"}
 
@@ -62,8 +68,19 @@ class Oracle:
     def __init__(self, fn, choices):
         self.fn, self.choices, self.i = fn, choices, 0
         self.env = {a.arg: ast.unparse(a.annotation) for a in fn.args.args}
+        assigned_anywhere = {t.id for n in ast.walk(fn) for t in ([n.target] if isinstance(n, (ast.AnnAssign, ast.For)) else getattr(n, "targets", []) if isinstance(n, ast.Assign) else [])
+                             if isinstance(t, ast.Name)}
+        for g, ty in GLOBALS.items():
+            if g not in assigned_anywhere:
+                self.env[g] = ty      # never assigned in the function: the name refers to the module-level binding
         self.reads: dict = {}     # (line, var) -> type at the last time this site was reached ... all types seen
         self.seen: list = []
+
+    def test(self, e):
+        """literal True / False are what they say (the builder prunes the other edge); every other condition is opaque"""
+        if isinstance(e, ast.Constant) and isinstance(e.value, bool):
+            return e.value
+        return self.cond()
 
     def cond(self):
         if self.i >= len(self.choices):
@@ -92,12 +109,15 @@ class Oracle:
         if isinstance(s, ast.Assign):
             t = self.value_type(s.value)
             self.env[s.targets[0].id] = t
+        elif isinstance(s, ast.AnnAssign):
+            t = self.value_type(s.value)        # the value is evaluated (and its variables read) before the target is bound
+            self.env[s.target.id] = t
         elif isinstance(s, ast.Expr):       # sink(v)
             self.read(s.value.args[0])
         elif isinstance(s, ast.If):
-            self.block(s.body if self.cond() else s.orelse)
+            self.block(s.body if self.test(s.test) else s.orelse)
         elif isinstance(s, (ast.While, ast.For)):
-            while self.cond():
+            while (self.test(s.test) if isinstance(s, ast.While) else self.cond()):
                 if isinstance(s, ast.For):
                     self.env[s.target.id] = "int"
                 try:
@@ -171,14 +191,33 @@ class Gen:
     def rvar(self):
         if self.r.random() < 0.85:
             return self.r.choice(self.assigned)
-        return self.r.choice("abcx")
+        return self.r.choice(["a", "b", "c", "x", "g0"])
+
+    def condition(self):
+        return self.r.choice(["cond()"] * 8 + ["True", "False"])
+
+    def dead_block(self, ind):
+        """body of a branch the builder knows to be dead: assignments only (reads in dead code are analysed by the compiler
+        as if reachable, which is outside this check)"""
+        p = " " * ind
+        out = []
+        for _ in range(self.r.randint(1, 2)):
+            v = self.r.choice(["a", "b", "c", "g0"])
+            self.assigned.append(v)
+            out.append(p + f"{v} = {VALUES[self.r.choice(self.types)]}")
+        return out
 
     def stmt(self, d, in_loop, ind):
         p = " " * ind
         r = self.r.random()
         if d <= 0 or r < 0.52:
             k = self.r.random()
-            v = self.r.choice("abc")
+            v = self.r.choice(["a", "b", "c", "a", "b", "c", "g0"])
+            if k < 0.06 and "int" in self.types:
+                # annotated assignment whose value reads variables (possibly its own target)
+                src = self.r.choice([v, self.rvar()])
+                self.assigned.append(v)
+                return [p + f"{v}: int = {src}"] if self.types == ["int"] else [p + f"{v} = {src}"]
             if k < 0.50:
                 self.assigned.append(v)
                 return [p + f"{v} = {VALUES[self.r.choice(self.types)]}"]
@@ -188,12 +227,14 @@ class Gen:
                 return [p + f"{v} = {src}"]
             return [p + f"sink({self.rvar()})"]
         if r < 0.76:
-            lines = [p + "if cond():"] + self.block(d - 1, in_loop, ind + 4)
+            c = self.condition()
+            lines = [p + f"if {c}:"] + (self.dead_block(ind + 4) if c == "False" else self.block(d - 1, in_loop, ind + 4))
             if self.r.random() < 0.55:
-                lines += [p + "else:"] + self.block(d - 1, in_loop, ind + 4)
+                lines += [p + "else:"] + (self.dead_block(ind + 4) if c == "True" else self.block(d - 1, in_loop, ind + 4))
             return lines
         if r < 0.86:
-            return [p + "while cond():"] + self.block(d - 1, True, ind + 4)
+            c = self.r.choice(["cond()"] * 6 + ["False"])
+            return [p + f"while {c}:"] + (self.dead_block(ind + 4) if c == "False" else self.block(d - 1, True, ind + 4))
         if r < 0.92:
             return [p + f"for {self.r.choice('ij')} in range(3):"] + self.block(d - 1, True, ind + 4)
         if r < 0.97 and in_loop:
@@ -223,6 +264,13 @@ FIXED = [
     "def u9(x: int) -> None:\n    a = 1\n    if cond():\n        a = (1, 2)\n    if cond():\n        sink(x)\n    else:\n        sink(a)\n",
     "def u10(x: int) -> None:\n    while cond():\n        if cond():\n            a = 1\n            continue\n        b = 2\n    sink(x)\n",
     "def u11(x: int) -> None:\n    if cond():\n        a = 1\n        return\n    a = True\n    sink(a)\n",
+    "def u13(x: int) -> None:\n    if False:\n        g0 = 1\n    sink(g0)\n",
+    "def u14(x: int) -> None:\n    sink(g0)\n",
+    "def u16(x: int) -> None:\n    a = 1\n    if cond():\n        a: int = a\n    sink(a)\n",
+    "def u17(x: int) -> None:\n    while cond():\n        g0: int = g0\n    sink(x)\n",
+    "def u18(x: int) -> None:\n    if cond():\n        b: int = b\n    sink(x)\n",
+    "def u19(x: int) -> None:\n    while False:\n        c = 2\n    sink(c)\n",
+    "def u20(x: int) -> None:\n    if True:\n        a = 1\n    sink(a)\n",
     "def u12(x: int) -> None:\n    a = 1\n    b = a\n    if cond():\n        b = True\n    c = b\n",
 ]
 
